@@ -89,7 +89,7 @@ def refusals (c : NodeCfg) (r : Request) : List (Bool × String) :=
     -- swap-out responder: on-chain balance for amount + fee
     (r.swapOut && decide (c.balance < wrapU64 (r.amount + c.openingFee)), "balance") ]
 
-def admit (c : NodeCfg) (r : Request) : Verdict :=
+def admission (c : NodeCfg) (r : Request) : Verdict :=
   match (refusals c r).find? (·.1) with
   | some x => .cancel x.2
   | none => .agreement (reqPremium c r)
